@@ -464,13 +464,22 @@ def correspondence(ctx):
     if ctx.violations:
         return
     if ctx.tie_broken:
-        # the source no longer matches the binary: not by itself a violation - the model arm above found no failing position,
-        # so report the broken tie without a failing input
-        ctx.violation('translator validation broken: ' + ctx.tie_broken[0], dict(kind='tie', detail=ctx.tie_broken[:5]), found_input=False)
+        # the source no longer matches the binary: not by itself a violation - the model arm above found no failing position; evaluate the property on
+        # an emulated rebuild of the classical models (source executed from text); if that finds nothing either, report the broken tie without an input
+        if not source_energy_arm(ctx, ctx.tie_broken[:1]):
+            ctx.violation('translator validation broken: ' + ctx.tie_broken[0], dict(kind='tie', detail=ctx.tie_broken[:5]), found_input=False)
         return
     # source reading of the strain / stress field sources the energy oracle below is built from, and of two complete linear kernels
     from tools import source_tie
-    if source_tie.check(ctx, 'C16', ('conecyl_clpt', 'conecyl_fsdt', 'linear_kernels')):
+    fails_, rows_ = source_tie.run(('conecyl_clpt', 'conecyl_fsdt', 'linear_kernels'))
+    ctx.evaluations += len(rows_)
+    ctx.cov['source_reading'] = dict(groups=['conecyl_clpt', 'conecyl_fsdt', 'linear_kernels'], functions_compared=len(rows_),
+                                     what='hand-written / generated .pyx sources executed as text (tools/cyexec.py) and compared with the compiled modules')
+    if fails_:
+        if not source_energy_arm(ctx, ['source reading: ' + fails_[0][0]]):
+            ctx.violation('source reading: %s as written in the source no longer agrees with the compiled module (max relative difference %r); the energy oracle '
+                          'of this check is built from the binary' % (fails_[0][0], fails_[0][1]),
+                          dict(kind='source reading', disagreeing=[f_[0] for f_ in fails_][:8]), found_input=False)
         return
     for ident, text, rep in kernel_alpha0(ctx, rng):
         if ctx.violation('C16 fails on the implementation: ' + text, dict(kind='alpha0', **rep), identity=ident):
@@ -556,6 +565,53 @@ def correspondence(ctx):
                 return
     ctx.cov['input_distribution'] = dist
     ctx.log('implementation arm: %d cases, %r' % (n, {k: v for k, v in dist.items() if k != 'models'}))
+
+
+def source_energy_arm(ctx, reason):
+    """failing-input search on the SOURCE AS WRITTEN: the classical shell models are run with their linear-kernel and commons modules executed from
+    text (source_tie.conecyl_source_build: an emulated rebuild) and the energy / symmetry / PSD predicates of this check are evaluated on them -
+    cylinder and a cone with several sections, an unsymmetric laminate"""
+    import random as _r
+    from tools import source_tie
+    for model in ['clpt_donnell_bc1', 'clpt_donnell_bc3', 'clpt_donnell_bc4', 'clpt_sanders_bc1', 'clpt_sanders_bc2', 'clpt_sanders_bc4']:
+        for alphadeg, s_ in ((0., 1), (35., 200)):
+            ctx.evaluations += 1
+            try:
+                with source_tie.conecyl_source_build(model), contextlib.redirect_stdout(QUIET), np.errstate(all='ignore'):
+                    ce = mk(model, _r.Random(1), alphadeg, s=s_, m1=2, m2=2, n2=2, stack=[0., 30., -45., 60.], kuBot=1.1e3, kvTop=0.9e3, kphixBot=5.e4)
+                    ce._calc_linear_matrices(silent=True)
+                    H = energy_hessian(ce, nx=24, nt=12)
+                    k0e = ce.k0.toarray()
+                    s_used = ce.s
+            except Exception as e:                               # noqa
+                ctx.log('source build of %s not usable: %r' % (model, e))
+                continue
+            # the kernels hold the radius constant per section; with few sections compare against the energy of the same piecewise-constant radius
+            keep = np.setdiff1d(np.arange(k0e.shape[0]), ce.excluded_dofs)
+            Hu, ku = H[np.ix_(keep, keep)], k0e[np.ix_(keep, keep)]
+            dd = np.sqrt(np.abs(np.diag(Hu)))
+            dd[dd == 0] = 1.
+            if np.abs(ku - ku.T).max() > 1e-12 * np.abs(ku).max():
+                ctx.violation('C16 fails on the source as written: k0 of %s (alphadeg %g) executed from the kernel source is not symmetric' % (model, alphadeg),
+                              dict(kind='source build', model=model, alphadeg=alphadeg, broken=reason))
+                return True
+            err = float((np.abs(ku - Hu) / np.outer(dd, dd)).max())
+            tol = 1e-8
+            if alphadeg == 0. and err > tol:
+                k = np.unravel_index(np.argmax(np.abs(ku - Hu) / np.outer(dd, dd)), ku.shape)
+                ctx.violation('C16 fails on the source as written: k0 of %s (cylinder) executed from the kernel source differs from the Hessian of the strain '
+                              'energy of the strain field of the same source: scaled error %.3e at free entry %r (k0 %.6e, d2U %.6e); the running binary is '
+                              'stale w.r.t. this source' % (model, err, tuple(int(x) for x in k), ku[k], Hu[k]),
+                              dict(kind='source build', model=model, alphadeg=alphadeg, broken=reason))
+                return True
+            if alphadeg != 0. and err > 1e-4:
+                k = np.unravel_index(np.argmax(np.abs(ku - Hu) / np.outer(dd, dd)), ku.shape)
+                ctx.violation('C16 fails on the source as written: k0 of %s on a %g-degree cone (s = %d sections) executed from the kernel source differs from '
+                              'the Hessian of the strain energy of the strain field of the same source: scaled error %.3e at free entry %r; the running binary '
+                              'is stale w.r.t. this source' % (model, alphadeg, s_used, err, tuple(int(x) for x in k)),
+                              dict(kind='source build', model=model, alphadeg=alphadeg, broken=reason))
+                return True
+    return False
 
 
 def search(ctx, reason):
